@@ -599,6 +599,31 @@ def gen_restart_prog(rng, max_actors=4, max_ops=5):
     return new_prog(cap=[rng.choice([0, 1])] * ns, actors=actors, timed=True)
 
 
+def gen_dying_prog(rng, max_peers=4):
+    """An actor starts several asynchronous communications (one mailbox each) on which peers block, then ends, is killed, or has
+    its host turned off while they are in flight: the order in which its activities are cancelled is the order in which the
+    peers are woken up (C01: it must not depend on addresses)."""
+    k = rng.randint(2, max_peers)
+    a1 = []
+    for b in range(k):
+        a1.append(op("puta", b + 1, 0, rng.randint(4, 8)) if rng.random() < 0.6 else op("geta", b + 1))
+    how = rng.choice(["end", "end", "sleepend", "kill", "hostoff"])
+    if how == "sleepend":
+        a1.append(op("sleep", 0, 0, 1))
+    elif how in ("kill", "hostoff"):
+        a1.append(op("sleep", 0, 0, 9))
+    actors = [a1]
+    for b in range(k):
+        peer = [op("get", b + 1)] if a1[b]["op"] == "puta" else [op("put", b + 1, 0, rng.randint(4, 8))]
+        if rng.random() < 0.5:
+            peer.append(op("sleep", 0, 0, 1))
+        actors.append(peer)
+    if how in ("kill", "hostoff"):
+        actors.append([op("sleep", 0, 0, rng.randint(1, 2)), op(how, 1)])
+    rng.shuffle(actors[1:1 + k])
+    return new_prog(actors=actors, perm=[0] * k, timed=True)
+
+
 def gen_life_prog(rng, max_actors=5, max_ops=6):
     """Actor lifecycle: create, on_exit callbacks, join with/without timeout, kill, kill_all, daemons, kill times, mixed with
     sleeps, executions and semaphore waits (no mutex / barrier: their queues keep killed actors, out of C11's scope)."""
